@@ -1475,9 +1475,35 @@ def endp_tie_modules():
     return ["Ufw.Tie.EndpFns.Common"] + [m for m, fs in ENDP_NEEDS.items() if all(ok(f) for f in fs)]
 
 
+# ---------------------------------------------------------------------------------------------------------------
+# src/persistent-storage.c: the default checksum and the layout helpers (the rest goes through callback tables and
+# structure returns: tie B)
+# ---------------------------------------------------------------------------------------------------------------
+
+PST_SRC = "src/persistent-storage.c"
+PST_TIE = {"trivialsum": "Ufw.Tie.PstFns.Trivialsum", "persistent_place": "Ufw.Tie.PstFns.Layout"}
+PST_WANT = ["checksum_size", "set_data_address", "trivialsum", "persistent_place"]
+PST_NEEDS = {"Ufw.Tie.PstFns.Trivialsum": ["trivialsum"], "Ufw.Tie.PstFns.Layout": ["checksum_size", "set_data_address", "persistent_place"]}
+PST_STATUS = {}
+
+
+def pst_gen():
+    u = Unit(PST_SRC, PST_WANT)
+    status, defs = u.translate()
+    write("PstFns", PST_SRC, defs)
+    PST_STATUS.clear()
+    PST_STATUS.update(status)
+    return {"cloops:" + k: v for k, v in status.items()}
+
+
+def pst_tie_modules():
+    ok = lambda f: PST_STATUS.get(f) == "translated"
+    return [m for m, fs in PST_NEEDS.items() if all(ok(f) for f in fs)]
+
+
 if __name__ == "__main__":
     which = sys.argv[1] if len(sys.argv) > 1 else "crc"
-    st = {"crc": crc_gen, "varint": varint_gen, "regp": regp_gen, "slip": slip_gen, "endp": endp_gen}[which]()
+    st = {"crc": crc_gen, "varint": varint_gen, "regp": regp_gen, "slip": slip_gen, "endp": endp_gen, "pst": pst_gen}[which]()
     for k, v in st.items():
         print(k, v)
-    print(open(os.path.join(vf.LEAN, "Ufw/Gen/%s.lean" % {"crc": "CrcLoops", "varint": "VarintLoops", "regp": "RegpFns", "slip": "SlipFns", "endp": "EndpFns"}[which])).read()[-9000:])
+    print(open(os.path.join(vf.LEAN, "Ufw/Gen/%s.lean" % {"crc": "CrcLoops", "varint": "VarintLoops", "regp": "RegpFns", "slip": "SlipFns", "endp": "EndpFns", "pst": "PstFns"}[which])).read()[-9000:])
